@@ -980,7 +980,21 @@ class Ctx:
 
     def safety_check(self, what, cond):
         if self.safety:
-            self.oblige(f"{what}@{self.site}" if self.site else what, cond, kind="safety")
+            site = self.site or _repo_site()
+            self.oblige(f"{what}@{site}" if site else what, cond, kind="safety")
+
+
+def _repo_site():
+    """file:line of the innermost frame that executes repository (or stdlib statistics) code"""
+    import os
+    from . import REPO
+    f = sys._getframe(2)
+    while f is not None:
+        fn = f.f_code.co_filename
+        if fn.startswith(REPO) or fn.endswith("statistics.py"):
+            return f"{os.path.basename(fn)}:{f.f_lineno}"
+        f = f.f_back
+    return ""
 
 
 class PathRecord:
